@@ -123,7 +123,7 @@ Definition sel_note_chord (on : mask) (c : mchord) (cbeat : Z) : list (option (l
 Fixpoint sel_score {A} (f : mask -> mchord -> Z -> A) (on : mask) (so : obs) (cs : list mchord) (cbeat : Z) : list (option A) :=
   match cs with
   | [] => []
-  | c :: r => (if call on (obs_chord c cbeat) then Some (f (child on so) c cbeat) else None)
+  | c :: r => (if call (child on so) (obs_chord c cbeat) then Some (f (child on so) c cbeat) else None)
               :: sel_score f on so r (cbeat + mchord_dur c)
   end.
 
